@@ -31,6 +31,8 @@ print("ENV " + json.dumps({"argv": sys.argv, "name": __name__, "file": os.path.a
 with open(os.path.join(os.environ["C07_LOG_DIR"], "order.log"), "a") as fh:
     fh.write("prog\\n")
 print("wrapped helper", helper_wrapped.twice(4))
+import builtins as _b                     # no builtin is hidden by a name the runner left in the program's global namespace
+print("builtins hidden by globals:", sorted(n for n in globals() if hasattr(_b, n) and not n.startswith("__")), "dir works:", callable(dir) and "X" in dir(helper_sibling))
 print("program output line 1")
 print("program output line 2")
 '''
